@@ -273,9 +273,26 @@ def rge_residuals(tensors, P, nf, pto, ren, fact, gluon_free_at_0):
     return out
 
 
+def runner_manager(pto_evol, pto_dis, ren, fact):
+    """the scale-variation manager the REAL Runner builds from a card with PTO = pto_evol (evolution) and PTODIS = pto_dis
+    (coefficient functions): the logs have to accompany the coefficient functions, i.e. reach a_s^PTODIS"""
+    import eko.matchings as em
+    import yadism.log
+    from yadism.runner import Runner
+    from yv.props import c06
+
+    yadism.log.silent_mode = True
+    t, o = c06.cards(dict(mc=1.51, mb=4.92, mt=172.5, kc=1.0, kb=1.0, kt=1.0, Q2=10.0), "ZM-VFNS", 4, pto=pto_evol)
+    t.update(PTODIS=pto_dis, RenScaleVar=ren, FactScaleVar=fact)
+    with npshim.patched((em, "np", npshim.NPShim())):
+        r = Runner(t, o)
+    return r.configs.managers["sv_manager"]
+
+
 def pairs_for(case, env):
     nf, pto, ren, fact, which = case["nf"], case["pto"], case["ren"], case["fact"], case["which"]
-    tensors, cen, P, sv = run_real_sv(env, nf, pto, ren, fact, which)
+    sv0 = runner_manager(case["runner_pto_evol"], pto, ren, fact) if "runner_pto_evol" in case else None
+    tensors, cen, P, sv = run_real_sv(env, nf, pto, ren, fact, which, sv=sv0)
     out = []
     # central tensors are what went in
     pids = None
@@ -383,6 +400,9 @@ def run(chk, only=None):
         if q and (nf + pto) % 2:
             continue
         cases.append(dict(nf=nf, pto=pto, which=which, switch=True))
+    # the manager as the real Runner builds it from cards with PTODIS != PTO (and == PTO)
+    for pto_evol, pto_dis in ((1, 2), (2, 3), (2, 2), (0, 1), (2, 1)) if q else ((1, 2), (2, 3), (2, 2), (0, 1), (2, 1), (1, 3), (0, 2), (1, 1), (0, 3)):
+        cases.append(dict(nf=4, pto=pto_dis, ren=True, fact=True, which="qg", runner_pto_evol=pto_evol))
     n_res = 0
     for case in cases:
         cname = ":".join(f"{k}={v}" for k, v in case.items())
